@@ -105,11 +105,16 @@ def impl_ipglob_set(s, s2):
     from harness.wire import exn_of
     g = IPGlob(s)
     e = None
+    # read every derived view once before the assignment (anything cached must not survive it)
+    _ = (g.cidrs(), g.size, g.first, g.last, g.key(), g.sort_key(), str(g), hash(g), g[0], g[-1])
     try:
         g.glob = s2
     except Exception as ex:  # noqa
         e = exn_of(ex)
-    return [_state(g), e]
+    cid = [[c._value, c._prefixlen] for c in g.cidrs()]
+    assert (g.first, g.last) == (g._start._value, g._end._value) and int(g[0]) == g.first and int(g[-1]) == g.last
+    assert g.key() == (4, g.first, g.last) and hash(g) == hash(g.key())
+    return [_state(g), e, cid, g.size]
 
 
 def impl_ipglob_setstate(s, e, ver):
@@ -397,7 +402,12 @@ def orc_ipglob_set(args, res):
         return None if res == Exn("AddrFormatError") else "IPGlob(%r) gave %r" % (s, res)
     if isinstance(res, Exn):
         return "harness-level failure %s" % res.name
-    st, e = res
+    st, e, cid, size = res
+    if size != st[1] - st[0] + 1:
+        return "size %r is not last-first+1 after the assignment" % (size,)
+    from harness.props.c05 import min_cidrs
+    if [[4] + c for c in cid] != min_cidrs(4, st[0], st[1]):
+        return "cidrs() after the assignment is not the CIDR list of the glob's current range"
     if f2 is None:
         if e != Exn("AddrFormatError"):
             return "assigning %r gave %r" % (s2, e)
